@@ -405,6 +405,28 @@ func (ex *Exec) doCall(st *State, fr *Frame, c *ssa.CallCommon, instr ssa.Value,
 	return nil, false
 }
 
+// calledField: the name of the struct field a called function value was read from ("" if it was not).
+func calledField(v ssa.Value) string {
+	fieldName := func(t types.Type, i int) string {
+		if p, ok := t.Underlying().(*types.Pointer); ok {
+			t = p.Elem()
+		}
+		if s, ok := t.Underlying().(*types.Struct); ok && i < s.NumFields() {
+			return s.Field(i).Name()
+		}
+		return ""
+	}
+	switch x := v.(type) {
+	case *ssa.Field:
+		return fieldName(x.X.Type(), x.Field)
+	case *ssa.UnOp:
+		if fa, ok := x.X.(*ssa.FieldAddr); ok && x.Op == token.MUL {
+			return fieldName(fa.X.Type(), fa.Field)
+		}
+	}
+	return ""
+}
+
 func (ex *Exec) shouldInline(fn *ssa.Function) bool {
 	return len(fn.Blocks) > 0
 }
@@ -423,6 +445,16 @@ func (ex *Exec) applyCall(st *State, fr *Frame, c *ssa.CallCommon, fc *FuncContr
 				full = "functype " + ft.Name
 			}
 			for pn, cn := range ex.fc.ParamContracts {
+				if strings.HasPrefix(pn, ".") {
+					// calls .Field as C: a call of the function value read from a struct field of that name
+					if calledField(c.Value) == pn[1:] {
+						if pc, ok := ex.w.CS.Externs[cn]; ok {
+							fc = pc
+							full = "field " + pn + " as " + cn
+						}
+					}
+					continue
+				}
 				if pv, ok := ex.params[pn]; ok && pv.T.S == fnv.S {
 					if pc, ok := ex.w.CS.Externs[cn]; ok {
 						fc = pc
